@@ -1,6 +1,6 @@
 (* C12 -- lazy iterators yield exactly the members of the container, then stop. Statements only. *)
 From Coq Require Import List Bool Arith NArith.
-From SonicV Require Import Model.Latch Model.SkipAll Model.Skip.
+From SonicV Require Import Model.Latch Model.SkipAll Model.Skip Spec.Ref Model.IterSound Model.IterObjSound.
 Import ListNotations.
 
 (* after yielding an error or the end an iterator yields nothing more, for every poll sequence *)
@@ -12,3 +12,15 @@ Proof. exact polls_latched. Qed.
 Theorem yielded_element_is_value : forall fuel l rest, skip_value fuel l = Some rest ->
   exists w v, l = w ++ v ++ rest /\ all_ws w /\ Value v.
 Proof. exact skip_value_sound. Qed.
+
+(* the reference iterators (what every checked iterator transcript is compared with), on arbitrary
+   bytes: every item is a well-formed value located exactly at its span inside the input, and the
+   transcript is items followed by exactly one terminal *)
+Theorem reference_array_items_located : forall l k a b, In (IOk k a b) (ref_array_iter l) -> located l a b.
+Proof. exact array_iterator_items_located. Qed.
+Theorem reference_array_transcript_shape : forall l, shape (ref_array_iter l) = true.
+Proof. exact array_iterator_shape. Qed.
+Theorem reference_object_items_located : forall l k a b, In (IOk k a b) (ref_object_iter l) -> located l a b.
+Proof. exact object_iterator_items_located. Qed.
+Theorem reference_object_transcript_shape : forall l, shape (ref_object_iter l) = true.
+Proof. exact object_iterator_shape. Qed.
